@@ -64,6 +64,7 @@ structure Cfg where
   hasCompleted : Bool := true
   resf : ResK := .some                         -- using: resource_factory returns a resource / None / raises
   obsfRaises : Bool := false                   -- using: observable_factory raises
+  doFinallyAsIs : Bool := false                -- do_finally as it was before the `fix:` (see `finGuardAsIs`)
 
 /-- `D`: the AutoDetachObserver around the user's callbacks, its SingleAssignmentDisposable, and the
 handle `Disposable(D.dispose)` returned to the subscriber -/
@@ -143,10 +144,21 @@ def action {α} (c : Cfg) (k : ActK) (arg : Option (Notif α)) : P α := fun s =
   ({ s with o.acts := s.o.acts + 1, log := s.log ++ [.act k arg (c.actRaises s.o.acts)] },
    if c.actRaises s.o.acts then some (c.actErr s.o.acts) else none)
 
-/-- do_finally: `if not was_invoked[0]: finally_action(); was_invoked[0] = True` -/
-def finGuard {α} (c : Cfg) : P α := fun s =>
+/-- do_finally (after `fix: do_finally marks its action as invoked before calling it`):
+`if not was_invoked[0]: was_invoked[0] = True; finally_action()` -/
+def finGuardFixed {α} (c : Cfg) : P α := fun s =>
+  if s.o.wasInvoked then (s, none)
+  else action c .fin none { s with o.wasInvoked := true }
+
+/-! ### AsIs: the handler of the pinned tree before the fix
+`if not was_invoked[0]: finally_action(); was_invoked[0] = True` — the flag is only set when the action
+returned, so an action that raises is invoked again by the other hook.  Used only by the witness
+`C40.do_finally_twice_when_action_raises` (`Cfg.doFinallyAsIs := true`). -/
+def finGuardAsIs {α} (c : Cfg) : P α := fun s =>
   if s.o.wasInvoked then (s, none)
   else seq (action c .fin none) (fun s => ({ s with o.wasInvoked := true }, none)) s
+
+def finGuard {α} (c : Cfg) : P α := if c.doFinallyAsIs then finGuardAsIs c else finGuardFixed c
 
 /-- `resource.dispose()` (or the dummy `Disposable()` when there is no resource) -/
 def resDisposeP {α} (c : Cfg) : P α := fun s =>
